@@ -66,6 +66,10 @@ def prepare(case):
             if len(it["impl"]["params"]) >= 2:
                 p1 = re.sub(pat, "", it["impl"]["params"][1])
         d["lines"] = [l.replace("<<P0>>", p0).replace("<<P1>>", p1) for l in d["lines"]]
+        num = int("".join(ch for ch in (d.get("marker") or "0") if ch.isdigit()) or 0)
+        if num % 4 == 0 and d.get("marker"):
+            # the doc text itself holds a note / warning directive (not one of the generated admonitions)
+            d["lines"] = d["lines"] + ["", [".. note::", ".. warning::"][num % 8 == 0], "", "   Remember the units here."]
         if d.get("form") == "bare" and not all(l == "" or l[0].isalpha() for l in d["lines"]):
             d["form"] = "leader"
     return mod
